@@ -95,6 +95,8 @@ XSD_ATTR_NAME = ("X", "maxLength", Q("xsd"))
 PROV_OTHER_ATTR_NAME = ("P", "generatedAtTime", Q("prov"))
 # an attribute name in the third namespace the library pre-binds (xsi)
 XSI_ATTR_NAME = ("XI", "note", Q("xsi"))
+# application attributes whose LOCAL names are PROV-DM argument / attribute names, in another fragment-style namespace
+FOREIGN_ARGNAME_ATTRS = [("H", l, Q("voc")) for l in ("entity", "activity", "agent", "time", "type", "label")]
 # a non-ASCII (but NCName) attribute-name local part
 NONASCII_ATTR_NAME = ("A", "cl\u00e9_\u6f22", Q("ex"))
 # values that compare equal in Python but differ in kind, placed on DIFFERENT records / attributes
@@ -130,6 +132,9 @@ def extras(tier, which, spelling, urikey):
             out.append((("at", XSD_ATTR_NAME, v),))
         for v in ("s_a", "s_uni", "i_2", "q_exA", "l_lang"):
             out.append((("at", NONASCII_ATTR_NAME, v),))
+        for fn in FOREIGN_ARGNAME_ATTRS:
+            for v in ("s_a", "i_2", "q_exA"):
+                out.append((("at", fn, v),))
         for v in SMALL_VALUES:
             out.append((("at", PROV_OTHER_ATTR_NAME, v),))
         for v in ("s_a", "i_2", "q_exA", "l_exdt"):
@@ -235,6 +240,16 @@ def cases(tier):
                     continue
                 rec = shape_ops(scope, spelling, urikey, kind, mask, "id" if not rel or kind not in machine.NO_ID_FACTORY else "anon")
                 out.append(("%s|%s|prov-class-type" % (env, kind), prelude + (rec, ("at", PROV_ATTR_NAMES[0], v))))
+        # (1c) every record kind (all arguments present) x application attributes named like PROV-DM arguments
+        for kind, mask in allshapes:
+            if any(m is False for m in mask) or kind in ("specialization", "alternate", "mention", "membership"):
+                continue
+            rel = kind in RELATIONS
+            for idmode in (("anon", "id") if rel else ("id",)):
+                for fn in FOREIGN_ARGNAME_ATTRS:
+                    for v in ("s_a", "q_exA"):
+                        rec = shape_ops(scope, spelling, urikey, kind, mask, idmode)
+                        out.append(("%s|%s|%s|foreign-argument-name" % (env, kind, idmode), prelude + (rec, ("at", fn, v))))
         # (2) every value / attribute name / pair x representative shapes
         shapes2 = REP_SHAPES if tier == "thorough" else REP_SHAPES[:3]
         for kind, mask in shapes2:
